@@ -1186,7 +1186,46 @@ def sub_views(case):
     return rec.result()
 
 
-SUBS = {'views': sub_views, 'txflags': sub_txflags, 'win': sub_win, 'forms': sub_forms, 'numeric': sub_numeric, 'nets': sub_nets, 'txout': sub_txout,
+def sub_txfee(case):
+    """case = {'vin': [values], 'vout': [values], 'coinbase': bool, 'fee': None | int, 'wt': witness type}: a
+    Transaction built from ready Input / Output objects; the fee the constructor derives (or is given) must be a
+    non-negative int equal to inputs - outputs whenever both totals are known, for coinbase and ordinary transactions
+    alike - or the construction is refused."""
+    from bitcoinlib.transactions import Output, Input, Transaction
+    rec = Rec()
+    rec.n += 1
+    tin, tout = sum(case['vin']), sum(case['vout'])
+    site = 'Transaction(%s,fee=%s)' % ('coinbase' if case['coinbase'] else 'ordinary', 'given' if case['fee'] is not None else 'derived')
+    try:
+        ins = [Input(_PREV if not case['coinbase'] else '00' * 32, i if not case['coinbase'] else 0xffffffff, value=v,
+                     witness_type=case['wt'], unlocking_script=b'\x03\xa0\xbb\x0d' if case['coinbase'] else b'')
+               for i, v in enumerate(case['vin'])]
+        outs = [Output(v, lock_script=_LS) for v in case['vout']]
+        t = Transaction(ins, outs, coinbase=case['coinbase'], fee=case['fee'], witness_type=case['wt'])
+        fee = t.fee
+    except Exception as e:
+        rec.o('refused_%s' % ('overspending' if tout > tin else 'balanced_or_underspending'))
+        if tin > tout and case['fee'] is None and not case['coinbase']:
+            rec.dev('%s|valid_transaction_refused|%s' % (site, type(e).__name__), {'case': case, 'exc': repr(e)[:200]})
+        return rec.result()
+    rec.nt.add(repr(case))
+    rel = 'outputs_exceed_inputs' if tout > tin else 'outputs_equal_inputs' if tout == tin else 'inputs_exceed_outputs'
+    if fee is None:
+        rec.o('fee_left_unknown')
+    elif type(fee) is not int or fee < 0:
+        rec.dev('%s|fee_is_not_a_non_negative_int|%s' % (site, rel), {'case': case, 'fee': repr(fee)})
+    elif case['fee'] is None and tin and tout and fee != tin - tout:
+        rec.dev('%s|derived_fee_differs_from_inputs_minus_outputs|%s' % (site, rel), {'case': case, 'fee': fee})
+    else:
+        rec.o('fee_ok_%s' % rel)
+    for name in ('input_total', 'output_total'):
+        v = getattr(t, name, None)
+        if v is not None and (type(v) is not int or v < 0):
+            rec.dev('%s|%s_is_not_a_non_negative_int' % (site, name), {'case': case, 'value': repr(v)})
+    return rec.result()
+
+
+SUBS = {'txfee': sub_txfee, 'views': sub_views, 'txflags': sub_txflags, 'win': sub_win, 'forms': sub_forms, 'numeric': sub_numeric, 'nets': sub_nets, 'txout': sub_txout,
         'fee': sub_fee, 'words': sub_words}
 
 
@@ -1396,6 +1435,19 @@ def run(ctx):
                  for pth in ('Output', 'add_output', 'Input', 'add_input') for st in (True, False)
                  for fl in (False, True) for wt in ('legacy', 'segwit') for k in kinds]
         ctx.pmap('txflags', cases)
+    if want('txfee'):
+        vs = [[5000000000], [625000000], [1], [1000, 2000], [SUPPLY]]
+        tc = []
+        for vin in vs:
+            tin = sum(vin)
+            for vout in ([tin - 1000] if tin > 1000 else []) + [[tin], [tin + 1], [tin + 100000], [tin // 2, tin - tin // 2 + 1],
+                                                                 [SUPPLY]]:
+                vout = vout if isinstance(vout, list) else [vout]
+                for cb in (False, True):
+                    for fee in (None, 0, 1000):
+                        for wt in ('legacy', 'segwit'):
+                            tc.append({'vin': vin if not cb else vin[:1], 'vout': vout, 'coinbase': cb, 'fee': fee, 'wt': wt})
+        ctx.pmap('txfee', tc)
     if want('fee'):
         fa = [['int', 0], ['int', 1], ['int', 1000], ['str', 10 ** 8, '', 'BTC'], ['str', 1000, 'sat', ''],
               ['str', 150000, 'm', 'BTC'], ['int', SUPPLY], ['Value', 5 * 10 ** 7, 'm']]
